@@ -1,31 +1,49 @@
 #!/bin/bash
-# usage: confirm_seeded.sh <seeded-dir> <scratch-worktree> [check-id]
-# Confirms in the scratch worktree that (1) the demo passes without the patch,
-# (2) with the patch the repository's tests still pass and the demo fails;
-# then applies the patch to /repo, runs the owning check, and reverts.
-D="$1"; WT="$2"
-ID="${3:-$(python3 -c "import json;print(json.load(open('$D/meta.json'))['property'])")}"
-NAME=$(basename "$D" | tr -c 'A-Za-z0-9\n' '_')
-LOG="$D/confirm.log"; : > "$LOG"
-cd "$WT" || exit 2
-git checkout -q -- src 2>/dev/null
-cp "$D/demo.rs" "tests/seeded_demo_$NAME.rs"
-echo "== demo without patch" >> "$LOG"
-cargo test --offline --test "seeded_demo_$NAME" >> "$LOG" 2>&1; clean=$?
-git apply "$D/patch.diff" || { echo "$NAME: patch does not apply in worktree"; exit 2; }
-echo "== suite with patch" >> "$LOG"
-cargo test --offline --lib --test integration_test >> "$LOG" 2>&1; suite=$?
-(cd lib && cargo test --offline >> "$LOG" 2>&1); lib=$?
-echo "== demo with patch" >> "$LOG"
-cargo test --offline --test "seeded_demo_$NAME" >> "$LOG" 2>&1; seeded=$?
-git checkout -q -- src; rm -f "tests/seeded_demo_$NAME.rs"
-# now the check against /repo
-cd /verif
-git -C /repo diff --quiet || { echo "$NAME: /repo dirty"; exit 2; }
-if git -C /repo apply --3way "$D/patch.diff" 2>>"$LOG"; then
-  ./run.sh "$ID" quick > "$D/check.log" 2>&1; chk=$?
-  git -C /repo reset -q --hard HEAD
-else
-  chk="patch-does-not-apply-to-repo"
+# usage: confirm_seeded.sh <seeded-dir>...
+# For each seeded change (patch.diff, demo.rs, meta.json) confirms, in a scratch
+# git worktree of /repo under /var/tmp/cs (never in /repo itself), that
+#  (1) the demo passes without the patch,
+#  (2) with the patch the repository's tests still pass and the demo fails,
+# then builds a scratch copy of the engine against that patched worktree and
+# runs the owning quick check. One result line per change on stdout; details in
+# <seeded-dir>/confirm.log and <seeded-dir>/check.log. The scratch area is kept
+# between invocations for incremental builds; remove it with
+#   git -C /repo worktree remove --force /var/tmp/cs/repo; rm -rf /var/tmp/cs
+CS=/var/tmp/cs
+mkdir -p $CS
+if [ ! -d $CS/repo ]; then
+  git -C /repo worktree add --detach $CS/repo HEAD -q || exit 2
 fi
-echo "$NAME: demo-clean=$clean suite-with-patch=$suite lib=$lib demo-with-patch=$seeded check[$ID]=$chk $(grep -a -m1 'signature:' $D/check.log 2>/dev/null)"
+git -C $CS/repo checkout -q --detach "$(git -C /repo rev-parse HEAD)" || exit 2
+rsync -a --delete --exclude engine/target --exclude out --exclude .git --exclude seeded /verif/ $CS/verif/
+sed -i "s#path = \"/repo\"#path = \"$CS/repo\"#" $CS/verif/engine/Cargo.toml
+grep -q "$CS/repo" $CS/verif/engine/Cargo.toml || { echo "cannot repoint engine"; exit 2; }
+ARGS=()
+for D in "$@"; do ARGS+=("$(realpath "$D")"); done
+for D in "${ARGS[@]}"; do
+  ID=$(python3 -c "import json;print(json.load(open('$D/meta.json'))['property'])")
+  NAME=$(basename "$D" | tr -c 'A-Za-z0-9\n' '_')
+  LOG="$D/confirm.log"; : > "$LOG"
+  cd $CS/repo || exit 2
+  git reset -q --hard HEAD; git clean -q -fd tests
+  cp "$D/demo.rs" "tests/seeded_demo_$NAME.rs"
+  echo "== demo without patch" >> "$LOG"
+  cargo test --offline --test "seeded_demo_$NAME" >> "$LOG" 2>&1; clean=$?
+  if ! git apply --3way "$D/patch.diff" >> "$LOG" 2>&1; then
+    echo "$NAME: patch does not apply"; git reset -q --hard HEAD; git clean -q -fd tests; continue
+  fi
+  git reset -q   # keep the patch in the working tree only
+  echo "== suite with patch" >> "$LOG"
+  cargo test --offline --lib --test integration_test >> "$LOG" 2>&1; suite=$?
+  (cd lib && cargo test --offline >> "$LOG" 2>&1); lib=$?
+  echo "== demo with patch" >> "$LOG"
+  cargo test --offline --test "seeded_demo_$NAME" >> "$LOG" 2>&1; seeded=$?
+  rm -f "tests/seeded_demo_$NAME.rs"
+  # the owning check against the patched worktree
+  (cd $CS/verif/engine && CARGO_TARGET_DIR=$CS/target cargo build --offline > $CS/build.log 2>&1); b=$?
+  if [ $b -ne 0 ]; then chk="engine-build-failed"; else
+    VERIF_DIR=$CS/verif $CS/target/debug/vp check "$ID" quick > "$D/check.log" 2>&1; chk=$?
+  fi
+  git reset -q --hard HEAD; git clean -q -fd tests
+  echo "$NAME: demo-clean=$clean suite-with-patch=$suite lib=$lib demo-with-patch=$seeded check[$ID]=$chk $(grep -a -m1 'signature:' $D/check.log 2>/dev/null)"
+done
